@@ -204,10 +204,12 @@ impl Outcome {
 /// prefix) and the message with digits blanked.
 pub fn panic_fingerprint(loc: &str, msg: &str) -> String {
     let file = loc.split(':').next().unwrap_or(loc);
-    let file = file
-        .trim_start_matches("/repo/")
-        .trim_start_matches("src/bin/threadsim/")
-        .to_string();
+    // the library is a path dependency: its files appear with the absolute path of the tree
+    let file = match (file.find("/registry/src/"), file.rfind("/src/")) {
+        (None, Some(i)) if file.starts_with('/') => &file[i + 1..],
+        _ => file,
+    };
+    let file = file.trim_start_matches("src/bin/threadsim/").to_string();
     let file = if file.starts_with("cmd") { format!("src/{file}") } else { file };
     let file = match file.find("/registry/src/") {
         Some(i) => {
